@@ -55,6 +55,13 @@ def native_model(lcf, c):
         m.add_attacker(t, attacker_id=c['aid'])
         for (ai, st) in eps:
             t.add_entry_point(A[ai], st)
+        if c.get('att2'):
+            t2 = AttackerAttachment(name='Attacker:77')
+            m.add_attacker(t2, attacker_id=77)
+            t2.add_entry_point(A[2], 'tO')
+            if c['att2'] == 2:
+                t3 = AttackerAttachment(name='Attacker:78')     # an attacker without entry points
+                m.add_attacker(t3, attacker_id=78)
     return m
 
 
@@ -137,7 +144,7 @@ def emit_eom(m, orient):
 
 def _choices(kw):
     return {'t0': idx(kw['t0'], 3), 'i0': idx(kw['i0'], 2), 'dp': idx(kw['dp'], 3), 'aid': ([40, 0][idx(kw['aid'], 2)] if 'aid' in kw else 40), 'att': idx(kw['att'], 3),
-            'l0': bool(kw['l0']), 'l1': bool(kw['l1']), 'l2': bool(kw['l2']), 'l3': bool(kw['l3']), 'l4': bool(kw['l4']), 'pack': bool(kw['pack'])}
+            'att2': (idx(kw['a2'], 3) if 'a2' in kw else 0), 'l0': bool(kw['l0']), 'l1': bool(kw['l1']), 'l2': bool(kw['l2']), 'l3': bool(kw['l3']), 'l4': bool(kw['l4']), 'pack': bool(kw['pack'])}
 
 
 def _native_loaded(m, lcf, d):
@@ -201,11 +208,54 @@ def body_scad(cube, **kw):
     return ''
 
 
+def body_twin(cube, **kw):
+    """Language with two associations that share both field names (Holds / Carries): links must keep their own class."""
+    from maltoolbox.translators.securicad import load_model_from_scad_archive
+    from maltoolbox.translators.updater import load_model_from_older_version
+    from maltoolbox.file_utils import save_dict_to_file
+    b = [bool(kw['b%d' % i]) for i in range(4)]
+    kind = idx(kw['kind'], 3)
+    with notrace(), reclimit():
+        lg, lcf = langs.build_lang(langs.L_TWIN())
+        m, A = mb.build_model(lcf, ['Host', 'Disk', 'Net', 'Packet', 'Disk', 'Packet'], ids=[4, 9, 0, 6, -2, 11])
+        if b[0]:
+            mb.add_link(m, lcf, 'Holds', 'owner', [A[0]], 'items', [A[1]])
+        if b[1]:
+            mb.add_link(m, lcf, 'Carries', 'owner', [A[2]], 'items', [A[3]])
+        if b[2]:
+            mb.add_link(m, lcf, 'Holds', 'owner', [A[0]], 'items', [A[4]])
+        if b[3]:
+            mb.add_link(m, lcf, 'Carries', 'owner', [A[2]], 'items', [A[5]])
+        _CNT[0] += 1
+        d = os.path.join(os.getcwd(), 'c18t_%d_%d' % (os.getpid(), _CNT[0]))
+        os.makedirs(d)
+        try:
+            nat = _native_loaded(m, lcf, d)
+            if kind < 2:
+                p = os.path.join(d, 'model.sCAD')
+                with zipfile.ZipFile(p, 'w') as z:
+                    z.writestr('model.eom', emit_eom(m, kind))
+                leg = load_model_from_scad_archive(p, lg, lcf)
+            else:
+                p = os.path.join(d, 'old.json')
+                save_dict_to_file(p, emit_0_0_39(m, 0))
+                leg = load_model_from_older_version(p, lcf, '0.0.39')
+        finally:
+            shutil.rmtree(d, ignore_errors=True)
+        if leg is None:
+            return 'legacy loader returned None'
+        x, y = normal(nat), normal(leg)
+        for nm, u, v in zip(('assets', 'links', 'attacker entry points'), x, y):
+            if u != v:
+                return 'L_TWIN (%s): %s differ: legacy %r vs native %r' % (['sCAD', 'sCAD reversed', '0.0.39'][kind], nm, v, u)
+    return ''
+
+
 def queries(tier):
-    base = [I('t0', 0, 2), I('i0', 0, 1), I('dp', 0, 2), I('aid', 0, 1), I('att', 0, 2), B('l0'), B('l1'), B('l2'), B('l3'), B('l4'), B('pack')]
-    w = {'t0': 0, 'i0': 1, 'dp': 1, 'aid': 0, 'att': 2, 'l0': True, 'l1': True, 'l2': True, 'l3': False, 'l4': True, 'pack': True}
+    base = [I('t0', 0, 2), I('i0', 0, 1), I('dp', 0, 2), I('aid', 0, 1), I('att', 0, 2), I('a2', 0, 2), B('l0'), B('l1'), B('l2'), B('l3'), B('l4'), B('pack')]
+    w = {'t0': 0, 'i0': 1, 'dp': 1, 'aid': 0, 'att': 2, 'a2': 2, 'l0': True, 'l1': True, 'l2': True, 'l3': False, 'l4': True, 'pack': True}
     pre = (['l0 + l1 + l2 + l3 + l4 <= 2', 'not pack or (l0 and l1)'] if tier == 'quick' else ['not pack or (l0 and l1)']) + \
-          ['aid == 0 or (att > 0 and i0 == 0)']     # attacker id 0 only together with an attacker and a non-zero asset id
+          ['aid == 0 or (att > 0 and i0 == 0)', 'a2 == 0 or (att > 0 and l0 + l1 + l2 + l3 + l4 <= 1)']
     qs = [Query(name='old', body=body_old, params=base + [I('var', 0, 1), I('fmt', 0, 2)], pre=pre + (['fmt == var'] if tier == 'quick' else []),
                 split=['t0', 'att'], timeout=600 if tier == 'quick' else 1700,
                 witnesses=[({}, dict(w, var=0, fmt=0)), ({}, dict(w, var=1, fmt=1, t0=1))],
@@ -216,6 +266,11 @@ def queries(tier):
                 witnesses=[({}, dict(w, **{'ori': 0})), ({}, dict(w, **{'ori': 1, 't0': 1, 'i0': 0}))],
                 bound='the same models emitted as a .sCAD archive (.eom XML, one association element per linked pair in alternating source/target '
                       'orientation, Attacker objects with firstSteps associations) and loaded by load_model_from_scad_archive')]
+    ps = [B('b0'), B('b1'), B('b2'), B('b3'), I('kind', 0, 2)]
+    qs.append(Query(name='twin', body=body_twin, params=ps, timeout=400,
+                    witnesses=[({}, {'b0': True, 'b1': True, 'b2': True, 'b3': False, 'kind': 0})],
+                    bound='language L_TWIN (two associations sharing both field names between different type pairs): every subset of 4 links, '
+                          'both .sCAD orientations and the 0.0.39 layout'))
     return qs
 
 
